@@ -77,14 +77,12 @@ func ParseBool(v string) (Bool, error) {
 func LossLessSwap(input sdkmath.Int, ratio sdkmath.LegacyDec, inputScale, outputScale uint32) (sdkmath.Int, sdkmath.Int) {
 	inputDec := sdkmath.LegacyNewDecFromInt(input)
 	scaleFactor := int64(inputScale) - int64(outputScale)
-	var scaleMultipler, scaleReverseMultipler sdkmath.LegacyDec
+	var scaleMultipler sdkmath.LegacyDec
 
 	if scaleFactor >= 0 {
 		scaleMultipler = sdkmath.LegacyNewDecWithPrec(1, scaleFactor)
-		scaleReverseMultipler = sdkmath.LegacyNewDecFromInt(sdkmath.NewIntWithDecimal(1, int(scaleFactor)))
 	} else {
 		scaleMultipler = sdkmath.LegacyNewDecFromInt(sdkmath.NewIntWithDecimal(1, int(-scaleFactor)))
-		scaleReverseMultipler = sdkmath.LegacyNewDecWithPrec(1, -scaleFactor)
 	}
 
 	// Calculate output
@@ -93,9 +91,10 @@ func LossLessSwap(input sdkmath.Int, ratio sdkmath.LegacyDec, inputScale, output
 
 	// Adjust input if there are decimal places in the output
 	if !outputDec.Equal(outputInt) {
-		outputFrac := outputDec.Clone().Sub(outputInt)
-		inputFrac := outputFrac.Mul(scaleReverseMultipler)
-		input = inputDec.Sub(inputFrac).TruncateInt()
+		// the input that the integer output is worth, rounded up: never burn
+		// less than what is minted is worth, never more than was offered
+		need := outputInt.QuoRoundUp(ratio).QuoRoundUp(scaleMultipler)
+		input = need.Ceil().TruncateInt()
 	}
 
 	return input, outputInt.TruncateInt()
